@@ -12,7 +12,7 @@ import (
 )
 
 type Act struct {
-	K    string // w | wh | ah | sa | panic
+	K    string // w | ws (io.WriteString on the raw writer; a "w" to the model) | hj (Hijack; nothing to the model) | wh | ah | sa | panic
 	B, V string
 	N    int
 }
@@ -41,6 +41,7 @@ type Cfg struct {
 	SvcF      map[int][]Filter
 	RouteX    map[int]*RouteX
 	Provider  string // "pool" | "bounded0" | "bounded1" | "bounded2"
+	Late      bool   // settings and the last container filter are applied after registrations / warm-up traffic (not part of the model's input: the answers must not depend on it)
 	CustomErr bool   // a ServiceErrorHandler of the harness writes "E<code>" instead of the library's message text
 }
 
@@ -54,7 +55,7 @@ type SReq struct {
 
 func actSx(a Act) *sx.Node {
 	switch a.K {
-	case "w":
+	case "w", "ws":
 		return sx.K("w", sx.H(a.B))
 	case "wh":
 		return sx.K("wh", sx.N(a.N))
@@ -70,6 +71,9 @@ func actSx(a Act) *sx.Node {
 func actsSx(kw string, as []Act) *sx.Node {
 	n := sx.K(kw)
 	for _, a := range as {
+		if a.K == "hj" {
+			continue // taking the connection over changes nothing the framework decides
+		}
 		n.List = append(n.List, actSx(a))
 	}
 	return n
